@@ -290,13 +290,20 @@ func (c *Client) disconnected() bool {
 }
 
 func (c *Client) closeAndDelSession() {
-	c.broker.sessMgr.delLocal(c.info.cid)
-	if c.session.cleanSession() {
-		c.broker.sessMgr.delDB(c.info.cid)
-	}
-
+	// The session, its stored copy and the topic subscriptions are keyed by client id.
+	// They belong to this connection only as long as it has not been superseded by a
+	// newer connection with the same client id, so check that under the broker lock,
+	// which handleConn holds while it registers a connection and sets its session.
 	topics, _, _ := c.session.allSubscribes()
-	c.broker.topicMgr.unsubscribe(topics, c.info.cid)
+	c.broker.Lock()
+	if c.broker.ownsSession(c) {
+		c.broker.sessMgr.delLocal(c.info.cid)
+		if c.session.cleanSession() {
+			c.broker.sessMgr.delDB(c.info.cid)
+		}
+		c.broker.topicMgr.unsubscribe(topics, c.info.cid)
+	}
+	c.broker.Unlock()
 
 	c.close()
 }
